@@ -290,7 +290,8 @@ class Runner:
         te = self.te
         real_cls = te.bridge.cls(cls_name)
         outs = []
-        for canary in (bytes([0x41]) * 7, bytes([0xFF, 0x00, 0xFE, 0xFF, 0x01, 0xFF, 0xFF]), b""):
+        for canary in (bytes([0x41]) * 7, bytes([0xFF, 0x00, 0xFE, 0xFF, 0x01, 0xFF, 0xFF]), b"",
+                       bytes([0x41, 0x00, 0xFF, 0x42, 0xFF, 0x01, 0x43])):
             big = canary + data + canary
             reader = te.EoReader(big).slice(len(canary), len(data))
             cd = te.spec.classes[cls_name]
@@ -305,7 +306,7 @@ class Runner:
         self.res.count("fault.embed")
         self.res.evaluations += 1
         self.tr.ev(cls_name, "embed", outs[0][0])
-        if not (outs[0] == outs[1] == outs[2]):
+        if not all(o == outs[0] for o in outs):
             self.res.violation = {
                 "kind": "embed", "signature": "C03|embed|result-depends-on-surrounding-bytes",
                 "detail": f"{cls_name}.deserialize over slice() of {data.hex()!r}: result depends on the bytes "
